@@ -386,6 +386,10 @@ int pv_overlap(int a, int b, const unsigned** idx_out) {
 bool pv_gen_ambiguous(pv_rng* r, int a, int b, unsigned coin, unsigned enabled, unsigned d[16], pv_mseed* seed_out) {
     const unsigned* S; int n = pv_overlap(a, b, &S);
     if (n < 2) return false;
+    /* pairs that share too few words for a checksum-valid phrase to be found are remembered (not thread-safe: only the
+     * single-threaded drivers construct ambiguous phrases) */
+    static int fails[PV_MAXLANG][PV_MAXLANG]; static bool ever[PV_MAXLANG][PV_MAXLANG];
+    if (!ever[a][b] && fails[a][b] >= 3) return false;
     for (int attempt = 0; attempt < 400; ++attempt) {
         unsigned c[16]; bool ok = true;
         for (int k = 2; k < 16 && ok; ++k) {
@@ -403,9 +407,11 @@ bool pv_gen_ambiguous(pv_rng* r, int a, int b, unsigned coin, unsigned enabled, 
             if (ov_member[a][b][c[0]]) {
                 if (seed_out) pv_m_unpack(c, seed_out);
                 memcpy(d, c, sizeof c); d[1] ^= coin & 2047;
+                ever[a][b] = true;
                 return true;
             }
         }
     }
+    fails[a][b]++;
     return false;
 }
